@@ -739,6 +739,15 @@ class Context(object):
         """
         for value in list(context.values()):
             if ismacro(value):
+                # The value of a parameter or register is stored on its
+                # class.  Give each document its own class, so that an
+                # assignment made in one document does not show up in
+                # the documents processed later by the same interpreter.
+                if isinstance(value, type) and \
+                   issubclass(value, plasTeX.ParameterCommand):
+                    value = type(value.__name__, (value,),
+                                 {'__module__': value.__module__,
+                                  '__doc__': value.__doc__})
                 self[macroName(value)] = value
 #           elif isinstance(value, Context):
 #               self.importMacros(value)
